@@ -5,7 +5,9 @@ arithmetic and ordering (`orderQ_cross_type_error`: also for derived operands wh
 coincide), and `failed_step_invisible(_in_history)` / `failed_xstep_invisible(_in_history)`: in every
 reachable session state every operation answers as on a fresh session over the current registry, so a
 failure (indeed any operation) is invisible to all later ones; `reregistration_answers_as_fresh`: after
-AddCategory/AddUnit everything answers as on a fresh session over the NEW registry.  Tie: histories
+AddCategory/AddUnit everything answers as on a fresh session over the NEW registry; `sum_of_different_dimensions_fails` (corollary of C03's `add_sub_ok_dims`: a +/- b of simple or
+derived operands with different dimension vectors fails) and `failed_sum_invisible(_in_history)`: the `sumq` step
+(engine Alg's `opSame` inside the session) hands back the state it was given.  Tie: histories
 of operations (registrations included) on private POSC databases, executed on the real code and on
 the session model (`drv_fail`), compared step by step."""
 import translate
@@ -29,11 +31,17 @@ RULE = ("histories (<= 60 operations) over a private POSC database: every ordere
         "histories with registrations in the middle (AddCategory of a new or existing category, override=True to "
         "another quantity type, back again, AddUnit with a default category, rejected registrations) and the same "
         "creations before and after them: Scalar(v, unit), ObtainQuantity(unit), Scalar((v, unit)), the dict / "
-        "list / pickle / CreateDerived forms, simple creation, checks, conversions, sums, orderings; distinct = "
+        "list / pickle / CreateDerived forms, simple creation, checks, conversions, sums, orderings; sums and "
+        "differences of DERIVED operands built by the real operators (products, quotients, powers, 1.0 / x) as "
+        "Scalars and as Arrays over list / tuple / ndarray, in both orders: one quantity type repeated through two "
+        "categories (length*depth against length), the exponent pairs (1,2) (-1,-2) (-1,-3) (2,3) (-2,-3) (1,-1) (2,-2) (-1,2) on the SAME "
+        "unit and category (the pair (-1,-2) is forced into every such history), the same inside products with a "
+        "second type, against simple and derived operands of another dimension, with equal-dimension controls, "
+        "`==` of the two quantities, operand snapshots, interleaved with valid operations; distinct = "
         "distinct operation; non-trivial = the operation mixes "
         "two quantity types or follows a failed operation in its history")
 EXHAUSTIVE = {"quick": False, "thorough": False}
-ASSUMPTIONS = ["derived operands of + and - stand in the model as simple operands of the same quantity types (their arithmetic is engine Alg, C03); object aliasing by C13",
+ASSUMPTIONS = ["hand-built (CreateDerived) and numpy-squared derived operands of + and - (arithd, arithnd) stand in the model as simple operands of the same quantity types; the derived operands of the sumq stream reach the model (Alg.opSame inside the session) as the composing maps the real operators built, the model does not rebuild the products itself (that is engine Alg, C03/C04); Arrays are compared on their first element; object aliasing by C13",
                "float results within K*eps*M of the exact model (checked, not proved)",
                "the dimension vector of a value is its map quantity type -> exponent (the library's notion); an "
                "unpickled Quantity is the call of _ObtainReduced its __reduce__ writes",
@@ -168,6 +176,10 @@ def _ents(es):
     return [dict(c=str(sym(c)), u=str(sym(u)), e=int(e)) for c, u, e in es]
 
 
+def _encq(q):
+    return dict(es=_ents(q["es"]), cap=str(sym(q["cap"])), derived=bool(q["derived"]))
+
+
 def _cmpq_model(op):
     """the comparison the real call performs, as the model's `cmpq` (operator, left, right, values):
     `sorted([X, Y])` and `min(X, Y)` evaluate `Y < X`, `max(X, Y)` evaluates `Y > X`"""
@@ -186,6 +198,10 @@ def _encode(op):
     if k == "cmpq":
         f, a, b, x, y = _cmpq_model(op)
         return dict(k="cmpq", f=f, a=_ents(a), b=_ents(b), x=qstr(exact(x)), y=qstr(exact(y)))
+    if k == "sumq":
+        return dict(k="sumq", f=op["f"], a=_encq(op["qa"]), b=_encq(op["qb"]), x=qstr(exact(op["x"])), y=qstr(exact(op["y"])))
+    if k == "eqq":
+        return dict(k="eqq", a=_encq(op["qa"]), b=_encq(op["qb"]))
     if k == "addcat":
         return dict(k="addcat", c=str(sym(op["c"])), qt=str(sym(op["qt"])), override=bool(op["override"]))
     if k == "addunit":
@@ -374,6 +390,192 @@ def _gen_collide(ctx, salt, pairs, n_random):
         yield _history(ops)
 
 
+# ------------------------------------------------------------- sums and differences of derived operands
+# an operand is a small expression over the real operators:
+#   ["L", value, unit, category]   Scalar(value, unit, category)   (Array: the container of value * m, m in _MULT)
+#   ["N", value]                   a plain number (only as the numerator of a quotient: 1.0 / x)
+#   ["*", a, b]  ["/", a, b]       the real operator
+#   ["^", a, n]                    a ** n (Array has no __pow__: the loop of Scalar.__pow__)
+_MULT = [1.0, 2.5]
+_WAYS = ["scalar", "scalar", "list", "tuple", "ndarray"]
+_EXP_PAIRS = [(1, 2), (-1, -2), (-1, -3), (2, 3), (-2, -3), (1, -1), (2, -2), (-1, 2)]
+
+
+def _pw(t, n):
+    """t to the power n through the public operators (n != 0)"""
+    p = t if abs(n) == 1 else ["^", t, abs(n)]
+    return p if n > 0 else ["/", ["N", 1.0], p]
+
+
+def _build_tree(t, w):
+    from barril.units import Array, Scalar
+
+    k = t[0]
+    if k == "L":
+        if w == "scalar":
+            return Scalar(t[1], t[2], t[3])
+        vals = [t[1] * m for m in _MULT]
+        if w == "ndarray":
+            import numpy
+
+            vals = numpy.array(vals)
+        elif w == "tuple":
+            vals = tuple(vals)
+        return Array(vals, t[2], t[3])
+    if k == "N":
+        return t[1]
+    if k == "^":
+        a = _build_tree(t[1], w)
+        if w == "scalar":
+            return a ** t[2]
+        r = a
+        for _ in range(t[2] - 1):
+            r = r * a
+        return r
+    a, b = _build_tree(t[1], w), _build_tree(t[2], w)
+    return a * b if k == "*" else a / b
+
+
+def _render_tree(t, w):
+    k = t[0]
+    if k == "L":
+        if w == "scalar":
+            return "Scalar(%r, %r, %r)" % (t[1], t[2], t[3])
+        vals = [t[1] * m for m in _MULT]
+        return "Array(%s, %r, %r)" % ("numpy.array(%r)" % vals if w == "ndarray" else repr(tuple(vals) if w == "tuple" else vals), t[2], t[3])
+    if k == "N":
+        return repr(t[1])
+    if k == "^":
+        return "(%s) ** %d" % (_render_tree(t[1], w), t[2])
+    return "(%s %s %s)" % (_render_tree(t[1], w), k, _render_tree(t[2], w))
+
+
+def _first(obj):
+    return float(obj.value if hasattr(obj, "value") else obj.values[0])
+
+
+def _canonq(q):
+    return dict(es=[[c, ue[0], int(ue[1])] for c, ue in q.GetCategoryToUnitAndExps().items()],
+                cap=q.GetUnknownCaption() or "", derived=bool(q.IsDerived()))
+
+
+def _sum_op(ctx, kind, f, ta, tb, w):
+    """a `sumq` / `eqq` operation: the operands are evaluated once with the real operators (on the private
+    database), the composing maps they got and the first element's value go to the model.  None when an operand
+    cannot even be built or is not finite."""
+    import math
+    from barril.units.unit_database import UnitDatabase
+
+    UnitDatabase.PushSingleton(ctx.db)
+    try:
+        a, b = _build_tree(ta, w), _build_tree(tb, w)
+        x, y = _first(a), _first(b)
+        qa, qb = _canonq(a.GetQuantity()), _canonq(b.GetQuantity())
+    except Exception:
+        return None
+    finally:
+        UnitDatabase.PopSingleton()
+    if not (math.isfinite(x) and math.isfinite(y)):
+        return None
+    op = dict(k=kind, ta=ta, tb=tb, w=w, qa=qa, qb=qb,
+              expr="%s %s %s" % (_render_tree(ta, w), {"add": "+", "sub": "-", "eq": "=="}[f], _render_tree(tb, w)))
+    if kind == "sumq":
+        op.update(f=f, x=x, y=y)
+    return op
+
+
+def _gen_sums(ctx, salt, n_hist):
+    """failing (and, as controls, valid) sums and differences of derived operands inside histories"""
+    rng = ctx.fresh_rng("C05s" + salt)
+    db = ctx.db
+    typed = [t for t in ctx.types if ctx.cats.get(t) and t not in ("Unknown", "dimensionless")]
+    multi = [t for t in typed if len(ctx.cats[t]) >= 2]
+    # units without offset (valid controls compare values; a failing sum only its error)
+    plain_units = {}
+    for t in typed:
+        base = db.GetBaseUnit(t)
+        us = []
+        for u in ctx.units[t]:
+            try:
+                if db.Convert(t, u, base, 0.0) == 0.0 and 1e-9 < abs(db.Convert(t, u, base, 1.0)) < 1e9:
+                    us.append(u)
+            except Exception:
+                pass
+        if us:
+            plain_units[t] = us
+    ptyped = [t for t in typed if t in plain_units]
+    pmulti = [t for t in multi if t in plain_units]
+
+    def val():
+        return rng.choice([2.0, 3.0, 0.5, -1.5, 7.25, 300.0, 12.0])
+
+    def leaf(t, u=None, c=None):
+        return ["L", val(), u or rng.choice(plain_units[t]), c or _cat(ctx, rng, t)]
+
+    def both(out, ta, tb, w=None, eq=False):
+        """the sum or difference in both orders, in one way of holding the values"""
+        w = w or rng.choice(_WAYS)
+        for a, b in ((ta, tb), (tb, ta)):
+            o = _sum_op(ctx, "sumq", rng.choice(["add", "sub"]), a, b, w)
+            if o:
+                out.append(o)
+        if eq:
+            o = _sum_op(ctx, "eqq", "eq", ta, tb, "scalar")
+            if o:
+                out.append(o)
+                out.append(dict(o, ta=tb, tb=ta, qa=o["qb"], qb=o["qa"], expr="(swapped) " + o["expr"]))
+
+    for _ in range(n_hist):
+        ops = []
+        # forced: the exponent pair (-1, -2) on the same unit and category, Scalars and one Array form
+        t = rng.choice(ptyped)
+        l0 = leaf(t)
+        both(ops, _pw(l0, -1), _pw(l0, -2), "scalar", eq=True)
+        both(ops, _pw(l0, -1), _pw(l0, -2), rng.choice(_WAYS[2:]))
+        for _ in range(rng.randint(3, 7)):
+            r = rng.random()
+            if r < 0.3 and pmulti:
+                # one quantity type twice through two different categories, against lower/higher powers of the type
+                t = rng.choice(pmulti)
+                c1, c2 = rng.sample(ctx.cats[t], 2)
+                u1, u2 = rng.choice(plain_units[t]), rng.choice(plain_units[t])
+                two = ["*", leaf(t, u1, c1), leaf(t, rng.choice([u1, u2]), c2)]
+                o_t = rng.choice([x for x in ptyped if x != t])
+                lo = leaf(o_t)
+                both(ops, two, leaf(t, rng.choice([u1, u2]), rng.choice([c1, c2, _cat(ctx, rng, t)])), eq=True)
+                both(ops, two, _pw(leaf(t, u1, c1), 3))
+                both(ops, [rng.choice("*/"), two, lo], [rng.choice("*/"), leaf(t, u1, c1), lo])
+                both(ops, two, _pw(leaf(t, u2, c1), 2), eq=rng.random() < 0.3)     # equal dimensions: a control
+                both(ops, two, ["*", leaf(t, u2, c2), leaf(t, u1, c1)])            # equal dimensions, other order
+            elif r < 0.65:
+                # exponent pairs on the same unit and category
+                t = rng.choice(ptyped)
+                l1 = leaf(t)
+                for (p, q) in rng.sample(_EXP_PAIRS, 3) + [(-1, -2)]:
+                    both(ops, _pw(l1, p), _pw(l1, q), eq=rng.random() < 0.5)
+                    if rng.random() < 0.4:
+                        # the same pair inside a product with another type
+                        o_t = rng.choice([x for x in ptyped if x != t])
+                        lo, k = leaf(o_t), rng.choice("*/")
+                        both(ops, [k, _pw(l1, p), lo], [k, _pw(l1, q), lo])
+                p = rng.choice([2, -1, -2, 3])
+                both(ops, _pw(l1, p), _pw(leaf(t), p))                             # equal dimensions, another unit
+            else:
+                # derived against simple / derived operands of another dimension
+                t, o_t = rng.sample(ptyped, 2)
+                d = [rng.choice("*/"), _pw(leaf(t), rng.choice([1, 2, -1])), _pw(leaf(o_t), rng.choice([1, 1, 2]))]
+                both(ops, d, leaf(rng.choice([t, o_t])))
+                both(ops, d, [rng.choice("*/"), leaf(t), leaf(rng.choice(ptyped))])
+                both(ops, d, d, eq=True)                                            # the same quantity: a control
+            if rng.random() < 0.5:
+                ops += _valid_ops(ctx, rng, rng.choice(typed))
+            if rng.random() < 0.3:
+                ops += _mk_ops(ctx, rng, *rng.sample(typed, 2), [rng.choice(["arith", "cmp", "create"])])
+            if ops and rng.random() < 0.2:
+                ops.append(dict(ops[rng.randrange(len(ops))]))
+        yield _history(ops[:60])
+
+
 _NEW_CATS = ["stroke", "my category", "reach of arm", "Custom/1"]
 _NEW_UNITS = ["smoot", "armlen", "u_x", "zork"]
 
@@ -480,6 +682,7 @@ def cases(ctx):
         rest = col[12:]
         yield from _gen_collide(ctx, "q", col[:12] + (rng.sample(rest, min(36, len(rest)))), 60)
         yield from _gen_reg(ctx, "q", 120)
+        yield from _gen_sums(ctx, "q", 60)
     else:
         yield from _gen(ctx, "t", True, 3000)
         # two more passes over all ordered type pairs with other seeded units, categories and values
@@ -488,6 +691,7 @@ def cases(ctx):
         yield from _gen_collide(ctx, "t", col, 600)
         yield from _gen_collide(ctx, "t2", col, 0)
         yield from _gen_reg(ctx, "t", 1500)
+        yield from _gen_sums(ctx, "t", 800)
 
 
 def model_line(c):
@@ -653,6 +857,8 @@ def _run_op(db, op):
             else:
                 r = max(X, Y) is Y
             return dict(ok=dict(b=bool(r)))
+        if k in ("sumq", "eqq"):
+            return _run_sum(op)
         if k == "addcat":
             db.AddCategory(op["c"], op["qt"], override=bool(op["override"]))
             return dict(ok=None)
@@ -672,6 +878,32 @@ def _run_op(db, op):
     except Exception as e:
         return dict(err=err_kind(e))
     return dict(err="other")
+
+
+def _snap_value(o):
+    vals = [o.value] if hasattr(o, "value") else [float(v) for v in o.values]
+    held = None if hasattr(o, "value") else type(o.values).__name__
+    q = o.GetQuantity()
+    return ([float(v).hex() for v in vals], held, o.GetUnit(), o.GetCategory(), _canonq(q), q.GetComposingUnits())
+
+
+def _run_sum(op):
+    """`X + Y` / `X - Y` (or `==` of the two quantities) of operands built by the real operators; the operands
+    must be what they were afterwards"""
+    a, b = _build_tree(op["ta"], op["w"]), _build_tree(op["tb"], op["w"])
+    if op["k"] == "eqq":
+        return dict(ok=dict(b=bool(a.GetQuantity() == b.GetQuantity())))
+    before = (_snap_value(a), _snap_value(b))
+    try:
+        r = a + b if op["f"] == "add" else a - b
+        q = _canonq(r.GetQuantity())
+        out = dict(ok=dict(e=q["es"], cap=q["cap"], derived=q["derived"], x=_first(r).hex()))
+    except Exception as e:
+        out = dict(err=err_kind(e))
+    after = (_snap_value(a), _snap_value(b))
+    if after != before:
+        return dict(err="other", detail="an operand changed: %r -> %r" % (before, after))
+    return out
 
 
 def _fresh(db):
@@ -738,6 +970,16 @@ def _agree_op(op, io, mo, extra_mag=0.0):
     if "err" in io:
         return None if io["err"] == mo["err"] else "error kinds differ: impl=%s model=%s" % (io["err"], mo["err"])
     a, b = io["ok"], mo["ok"]
+    if op["k"] == "sumq":
+        if not isinstance(b, dict) or "e" not in b:
+            return "shape: impl=%s model=%s" % (a, b)
+        me = [[unsym(int(c)), unsym(int(u)), int(e)] for c, u, e in b["e"]]
+        if a["e"] != me or a["cap"] != unsym(int(b["cap"])) or a["derived"] != b["derived"]:
+            return "quantity of the result differs: impl=%s model=%s" % (a, dict(e=me, cap=unsym(int(b["cap"])), derived=b["derived"]))
+        r = float.fromhex(a["x"])
+        if not close(r, qparse(b["x"]), qparse(b["M"])):
+            return "value %r not within K*eps*M of %s" % (r, float(qparse(b["x"])))
+        return None
     if op["k"] == "createderived":
         return None  # both accept: the model's stand-in is the simple creation, the derived strings are C07's/C20's
     if a is None or b is None:
@@ -807,6 +1049,31 @@ def _snapshot(db):
     )
 
 
+def _tree_dims(db, t):
+    """dimension vector of an operand expression from its leaves only (quantity type of the leaf's category ->
+    exponent), by the rules of dimensional analysis; None when a name is not registered, the Unknown type occurs or
+    a leaf's unit is not of its category's type"""
+    k = t[0]
+    if k == "N":
+        return {}
+    if k == "L":
+        cats = db.categories_to_quantity_types
+        qt = cats[t[3]].quantity_type if t[3] in cats else None
+        if qt is None or qt == "Unknown" or _qt(db, None, t[2]) != qt:
+            return None
+        return {} if qt == "dimensionless" else {qt: 1}
+    if k == "^":
+        a = _tree_dims(db, t[1])
+        return None if a is None else {q: e * t[2] for q, e in a.items()}
+    a, b = _tree_dims(db, t[1]), _tree_dims(db, t[2])
+    if a is None or b is None:
+        return None
+    d = dict(a)
+    for q, e in b.items():
+        d[q] = d.get(q, 0) + (e if k == "*" else -e)
+    return {q: e for q, e in d.items() if e != 0}
+
+
 def _must_fail(db, op):
     """Does the property demand a units/type error for this operation?  (None = it does not say.)"""
     k = op["k"]
@@ -851,6 +1118,14 @@ def _must_fail(db, op):
         if None in (t1, t2) or "Unknown" in (t1, t2) or t1 == t2:
             return None
         return "units"
+    if k == "sumq":
+        va, vb = _tree_dims(db, op["ta"]), _tree_dims(db, op["tb"])
+        if va is None or vb is None or not va or not vb:     # unknown names, the Unknown type, dimensionless: exempt
+            return None
+        return "units" if va != vb else None
+    if k == "eqq":
+        return None
+
     def vec(es):
         """joined quantity-type exponents of composing entries (the dimension vector); "mismatch" when the unit of
         an entry is of another quantity type than its category; None when the property does not say (names that
@@ -969,6 +1244,7 @@ def oracle(c, ctx):
 
 
 def search(ctx):
+    yield from _gen_sums(ctx, "s", 100 if ctx.tier == "quick" else 600)
     yield from _gen_collide(ctx, "s", ctx.collide, 100)
     yield from _gen_reg(ctx, "s", 150 if ctx.tier == "quick" else 1500)
     yield from _gen(ctx, "s", ctx.tier != "quick", 500)
